@@ -21,8 +21,8 @@ class ReplayResult:
 
 def _is_global(b):
     if not isinstance(b, str): return b.get("global")
-    head = b[:4000]
-    return '"global":true' in head or '"global": true' in head
+    # the key order of TLC's ToJson is not fixed: look at the whole line (no world document has a key "global")
+    return '"global":true' in b or '"global": true' in b
 
 
 def _run_shard(exe, path, tmp, timeout_s, env, per_shard_timeout, dump=False, extra=()):
